@@ -17,6 +17,7 @@ import (
 
 type Obligation struct {
 	Name    string
+	QFOnly  bool // guard queries: only the quantifier-free assumptions are asserted
 	Tags    []string
 	Kind    string
 	PC      *Term
